@@ -195,6 +195,7 @@ void finishRegion(State& st) {
 } // namespace
 
 void configure(int threads, int policy, uint64_t seed) { cfgThreads = threads; cfgPolicy = policy; cfgSeed = seed; }
+int configuredThreads() { return cfgThreads; }
 const Log& lastLog() { return S().last; }
 long currentTask() { return tlsTask; }
 long currentWorker() { return tlsWorker; }
